@@ -44,6 +44,10 @@ def blob_from_spec(sp):
         return wire.ecdsa_blob(sp.get('curve', 'nistp256'))
     if t == 'dss':
         return wire.dss_blob(sp.get('bits', 1024))
+    if t == 'sk-ed25519':
+        return wire.sk_ed25519_blob()
+    if t == 'sk-ecdsa':
+        return wire.sk_ecdsa_blob()
     if t == 'cert':
         return wire.cert_blob(sp['kind'], sp.get('bits', 0), blob_from_spec(sp['ca']), sp.get('cert_type', 2), fields=sp.get('fields'))
     if t == 'raw':
